@@ -3,4 +3,4 @@ module github.com/dsnet/compress/zscratch
 go 1.23
 
 require github.com/dsnet/compress v0.0.0
-replace github.com/dsnet/compress => /tmp/repo-stable
+replace github.com/dsnet/compress => /repo
